@@ -149,13 +149,17 @@ func init() {
 				c.Fail("C26a/GetContentHashData/covers="+fld, c.P.Pos(f.Pos()), "request field "+fld+" is not covered by the content hash: it can be changed under a signed session")
 			}
 		}
-		// both metadata name and value
-		mdOK := false
+		// both metadata name and value are read
+		mdRead := map[string]bool{}
 		ir.EachInstr(f, func(in ssa.Instruction) {
-			if b, ok := in.(*ssa.BinOp); ok && b.Op.String() == "+" && strings.HasSuffix(ir.Desc(b.X), ".Name") && strings.HasSuffix(ir.Desc(b.Y), ".Value") {
-				mdOK = true
+			switch x := in.(type) {
+			case *ssa.FieldAddr:
+				mdRead[ir.FieldKey(x)] = true
+			case *ssa.Field:
+				mdRead[ir.FieldKey(x)] = true
 			}
 		})
+		mdOK := mdRead[pt+"Metadata.Name"] && mdRead[pt+"Metadata.Value"]
 		if mdOK {
 			c.OK("C26a/GetContentHashData/metadata-name-and-value", c.P.Pos(f.Pos()), "Name+Value of each entry")
 		} else {
@@ -187,6 +191,11 @@ func init() {
 		}
 		if nb == 0 {
 			c.Undecided("no consumer-side use of GetContentHashData found in protocol/lavaprotocol")
+		}
+		c.Rule("C26d provider side: verifyRelayRequestMetaData returns nil only past bytes.Equal(session.ContentHash, HashMsg(relayData.GetContentHashData())) on the request's own data")
+		if meta := c.Fn("protocol/rpcprovider.RPCProviderServer.verifyRelayRequestMetaData"); meta != nil {
+			c.RequireGuards("C26d", c.SuccessReturns(meta), "return-nil",
+				FactPrefix("content-hash", "call(bytes.Equal)(", "param#1.ContentHash", "call(utils/sigs.HashMsg)(call(x/pairing/types.RelayPrivateData.GetContentHashData)(param#2))"))
 		}
 		c.Rule("C26c encoding: the hashed bytes must be uniquely decodable")
 		c.RequireInjectiveConcat("C26c", pt+"RelayPrivateData.GetContentHashData", 8)
